@@ -750,17 +750,24 @@ impl<'a, 'b> Renderer<'a, 'b> {
             }
             D::Tuple(prefix, rest) => {
                 let mut parts = vec![];
+                // named members: `[x0: T, x1: U, ...more: V[]]` is the same tuple type (all members named, or none)
+                let labelled = self.cfg.has(Feat::Syntax) && self.s.chance(1, 5);
+                if labelled {
+                    self.mark("tuple_named_members");
+                }
                 for (i, p) in prefix.iter().enumerate() {
                     path.push(i);
                     let t = self.ty_at(p, path);
                     path.pop();
-                    parts.push(t.s);
+                    parts.push(if labelled { format!("x{}: {}", i, t.s) } else { t.s });
                 }
                 if let Some(r) = rest {
                     path.push(prefix.len());
                     let t = self.ty_at(r, path);
                     path.pop();
-                    if self.cfg.has(Feat::Syntax) && self.s.chance(1, 3) {
+                    if labelled {
+                        parts.push(format!("...more: {}[]", need(t, Prec::Atom)));
+                    } else if self.cfg.has(Feat::Syntax) && self.s.chance(1, 3) {
                         parts.push(format!("...Array<{}>", t.s));
                     } else {
                         parts.push(format!("...{}[]", need(t, Prec::Atom)));
